@@ -22,6 +22,7 @@ type Oblig struct {
 	Pos    string
 	Desc   string
 	Cover  bool // a reachability probe: expected to be satisfiable (must NOT be unsat)
+	ExpectFail bool // listed as an open known finding: short solver pipeline
 	PreN   int  // for a probe placed after a call: the number of leading hypotheses that were there before the callee's postconditions
 	Axioms []*Term
 }
